@@ -42,7 +42,7 @@ def random_items(seed, n):
 def run(ctx):
     ctx.mc("text", MODULE, "MC_LocaleFmt.cfg", overrides={"MaxDigits": ctx.pick(6, 8)},
            required_actions=["Digit", "Pick"])
-    nd = ctx.pick(7, 9)
+    nd = ctx.pick(7, 8)
     states = ctx.gen_states("text", MODULE, "Gen_LocaleFmt.cfg",
                             overrides={"MaxDigits": nd, "Digits": ctx.pick("{0, 1, 9}", "{0, 1, 5, 9}")})
     paths, rel_items = td.paths_from_states(states)
